@@ -162,6 +162,27 @@ def streams(rng, tier):
                  rule="aiter allx: array_iter / array_iter_with / map_iter over integers of every width and sign as u8, unrepresentable ones in between: each element is "
                       "its value or its own error, the next element is the next element, the end is the end of the container")
     s2i.shrinkable = False
+    # an integer item whose head byte also is the byte just before it (whatever looks around the head must look at the head)
+    pr_ops = []
+    for (neg, width, n) in triples[::7]:
+        if width == 0: continue
+        hb = gen.head(neg, n, width)[0]
+        v = -1 - n if neg else n
+        for pre, ptoks in ((gen.head(0, hb, 1), [hb]), (gen.head(1, hb, 1), [-1 - hb]), (gen.head(0, hb, 1) + gen.head(0, hb, 1), [hb, hb])):
+            pr_ops.append(f"tokdec {(pre + gen.head(neg, n, width)).hex()} #V={','.join(map(str, ptoks + [v]))}")
+    def judge_pairs(op, impl, model, spec):
+        want = [int(x) for x in op.split("#V=")[1].split(",")]
+        iw = impl.split(" ")
+        if len(iw) != 3 or iw[1] != "end":
+            return "violation"
+        got = iw[0].split(",")
+        if len(got) != len(want) or any(":" not in g or g.split(":")[0] not in RANGE or int(g.split(":")[1]) != w_ or
+                                        not (RANGE[g.split(":")[0]][0] <= w_ <= RANGE[g.split(":")[0]][1]) for g, w_ in zip(got, want)):
+            return "violation"
+        return "ok" if impl == model else "corr"
+    s2p = Stream("int-after-its-own-head-byte", "hcore", pr_ops, judge=judge_pairs,
+                 rule="tokdec of an integer item preceded by items whose last byte equals its head byte (18 38 | 38 c7 ..): every token carries exactly its integer")
+    s2p.shrinkable = False
     # Int rendered as text (Display of Int and of Token::Int: what the diagnostic notation prints): the decimal number, both ends of the range included
     sh_ops = [f"intshow {v}" for v in sorted({x for b in gen.boundaries(64) for x in (b, -b, -1 - b, b - 1)} | {-2**64, -2**64 + 1, 2**64 - 1, 0, -1}) if -2**64 <= v <= 2**64 - 1]
     s2s = Stream("int-as-text", "hcore", sh_ops, model_ops=["nop"] * len(sh_ops),
@@ -230,7 +251,7 @@ def streams(rng, tier):
     s4 = Stream("typed-int-impls", "hcore", tops, model_ops=tmops, judge=judge_typed,
                 rule="tdec of usize/isize/NonZero*/Atomic*/Int/the eight fixed types on every (sign,width,argument) head: value iff representable (and non-zero for NonZero), position = head length")
     s4.shrinkable = False
-    return [s1, s2, s2t, s2i, s2s, s3, s4]
+    return [s1, s2, s2t, s2p, s2i, s2s, s3, s4]
 
 
 DT_ACC = {"u8": "u8", "u16": "u16", "u32": "u32", "u64": "u64", "i8": "i8", "i16": "i16", "i32": "i32", "i64": "i64", "int": "int"}
